@@ -35,8 +35,12 @@ def run(rep, tier, seed, replay=None):
     if replay and replay.get("message"):
         msgs = [(replay.get("origin", "replay"), replay["message"], replay.get("own", False))]
     else:
-        plain, _ = codecrun.gen_cases(ctx, rng, n, comp_mode=False)
-        comp, _ = codecrun.gen_cases(ctx, rng, n, comp_mode=True)
+        gen.WIDE_INTS = True          # C07 quantifies over data widths of 1..64 bits (32 for scaled numerics)
+        try:
+            plain, _ = codecrun.gen_cases(ctx, rng, n, comp_mode=False)
+            comp, _ = codecrun.gen_cases(ctx, rng, n, comp_mode=True)
+        finally:
+            gen.WIDE_INTS = False
         jobs = [(c, 1 if (c["same"] and len(c["subsets"]) >= 2) else 0) for c in plain + comp]
         # library-made messages
         outs = ctx.run_c([gen.case_line(c["ed"], cm, c["tmpl"], c["subsets"]) for c, cm in jobs])
